@@ -58,13 +58,22 @@ class C16(scen.WorldProp):
                 events.append(call(t0 + 3 + rng.uniform(-0.5, 5) * row_t, GO))
             events.sort(key=lambda e: e[0])
             end = t0 + 3 + (len(spec["rows"]) + 10) * row_t
+            twice = None
+            if not udi and not again and rng.random() < 0.3:
+                # twice through after one Look To: the composition comes round, That's all, rounds go on, Go again -
+                # the second time through is the composition again, call for call (the one that is judged)
+                ta = t0 + 3 + (len(spec["rows"]) + 7) * row_t
+                g2 = ta + rng.uniform(1.5, 5) * row_t
+                events += [call(ta, scen.THATS_ALL), call(g2, GO)]
+                end = g2 + (len(spec["rows"]) + 9) * row_t
+                twice = ta
             sc = {"start": 1000.0, "end": end, "tower_size": N, "events": events,
                   "bot": scen.bot_cfg(spec, up_down_in=udi, call_comps=cc),
                   "rhythm": scen.rhythm_cfg("regression", peal_speed=ps)}
-            yield {"k": "world", "scenario": sc, "t0": t0, "again": again}
+            yield {"k": "world", "scenario": sc, "t0": t0, "again": again, "twice": twice}
 
     def tag(self, req, reply):
-        return ("second-touch:" if req.get("again") else "") + super().tag(req, reply)
+        return ("second-touch:" if req.get("again") else "twice-through:" if req.get("twice") else "") + super().tag(req, reply)
 
     def nontrivial(self, req, reply):
         return len(scen.calls_made(reply)) > 0
@@ -80,6 +89,14 @@ class C16(scen.WorldProp):
             # judge the touch that follows the last Look To (the earlier one only sets the scene)
             reply = dict(reply, strikes=[x for x in reply["strikes"] if scen.b2f(x[0]) >= req["t0"]],
                          obs=[o for o in reply["obs"] if scen.b2f(o[0]) >= req["t0"]])
+        if req.get("twice") is not None:
+            # judge the second time through: from the first whole row after That's all
+            k = sum(1 for x in reply["strikes"] if scen.b2f(x[0]) < req["twice"])
+            k += (-k) % N
+            if k >= len(reply["strikes"]):
+                return None
+            cut = scen.b2f(reply["strikes"][k][0])
+            reply = dict(reply, strikes=reply["strikes"][k:], obs=[o for o in reply["obs"] if scen.b2f(o[0]) >= cut - 1e-9])
         rows = scen.rows_from_strikes(reply, N)
         calls = scen.calls_made(reply)
         if not sc["bot"]["call_comps"]:
